@@ -183,6 +183,12 @@ func (o *objectImpl) SetProperty(name value.Value, newValue value.Value) error {
 		return fmt.Errorf("invalid signature: %s", err)
 	}
 	data := buf.Bytes()
+	// a value of another type than the one the property is declared
+	// with is refused: it must not reach the validator (which would
+	// decode it as the declared type), be saved nor be notified.
+	if err = o.checkPropertyType(nameStr, sig); err != nil {
+		return err
+	}
 	err = o.onPropertyChange(nameStr, data)
 	if err != nil {
 		return err
@@ -196,6 +202,23 @@ func (o *objectImpl) SetProperty(name value.Value, newValue value.Value) error {
 		return fmt.Errorf("cannot set property: %s", err)
 	}
 	return o.signalHandler.UpdateProperty(id, sig, data)
+}
+
+// checkPropertyType returns an error unless sig is the signature the
+// property is declared with (a declaration may wrap the type in a
+// tuple, see MetaObject.PropertyID).
+func (o *objectImpl) checkPropertyType(name, sig string) error {
+	for _, property := range o.meta.Properties {
+		if property.Name != name {
+			continue
+		}
+		if property.Signature == sig || property.Signature == "("+sig+")" {
+			return nil
+		}
+		return fmt.Errorf("property %s is of type %s, not %s", name,
+			property.Signature, sig)
+	}
+	return fmt.Errorf("property unknown: %s", name)
 }
 
 func (o *objectImpl) saveProperty(name string, newValue value.Value) error {
